@@ -4,7 +4,9 @@ import (
 	"crypto/sha1"
 	"encoding/json"
 	"fmt"
+	"hash/crc32"
 	"os"
+	"os/exec"
 	"path/filepath"
 	"sort"
 	"strconv"
@@ -42,6 +44,7 @@ type CheckDef struct {
 	Assumptions []string     `json:"assumptions"`
 	Stubs       []string     `json:"stubs"`
 	Outside     []string     `json:"outside"`
+	Lemmas      []string     `json:"lemmas"`
 }
 
 type KnownFinding struct {
@@ -318,6 +321,15 @@ func cmdCheck(args []string) int {
 	exit := 0
 	inconclusive := false
 	nviol := 0
+	for _, lm := range def.Lemmas {
+		le := runLemma(vroot, lm)
+		ev.Coverage.Lemmas = append(ev.Coverage.Lemmas, le)
+		if !le.OK {
+			fmt.Printf("INCONCLUSIVE: property=%s lemma %s is not discharged (%s): the checksum axioms it justifies are not trusted\n", prop, lm, le.Detail)
+			ev.Coverage.Inconclusive = append(ev.Coverage.Inconclusive, "lemma "+lm+": "+le.Detail)
+			inconclusive = true
+		}
+	}
 	replayDir := filepath.Join(vroot, "replays", prop)
 	for _, ob := range def.Obligations {
 		if only != "" && ob.Fn != only {
@@ -589,4 +601,40 @@ func cmdReplay(args []string) int {
 		return 1
 	}
 	return 0
+}
+
+// runLemma discharges a stand-alone SMT-LIB lemma file (every check-sat must answer unsat) and, for the CRC-32
+// lemmas, checks that the table Go uses equals the bitwise definition the lemma file talks about (L3).
+func runLemma(vroot, name string) LemmaEvidence {
+	le := LemmaEvidence{File: "lemmas/" + name + ".smt2"}
+	t0 := time.Now()
+	out, err := exec.Command(solverBin, "-T:60", filepath.Join(vroot, "lemmas", name+".smt2")).CombinedOutput()
+	le.SolverS = round3(time.Since(t0).Seconds())
+	le.Answers = strings.Fields(strings.TrimSpace(string(out)))
+	le.OK = err == nil && len(le.Answers) > 0
+	for _, a := range le.Answers {
+		if a != "unsat" {
+			le.OK = false
+		}
+	}
+	if !le.OK {
+		le.Detail = cut(strings.TrimSpace(string(out)), 200)
+	}
+	if strings.HasPrefix(name, "crc32") {
+		for i := 0; i < 256; i++ {
+			x := uint32(i)
+			for k := 0; k < 8; k++ {
+				if x&1 == 1 {
+					x = (x >> 1) ^ 0xEDB88320
+				} else {
+					x >>= 1
+				}
+			}
+			if crc32.IEEETable[i] != x {
+				le.OK, le.Detail = false, fmt.Sprintf("hash/crc32 table entry %d differs from the bitwise definition", i)
+			}
+		}
+		le.TableChecked = true
+	}
+	return le
 }
